@@ -1231,3 +1231,38 @@ def gen_sweep(seed, idbase=0, lens=None, kt="bytes", name="sweep"):
     s.op("new_process")
     s.op("decode", dir="d", name="m", native=True)
     return s
+
+
+def bfs_spec(kind, idbase=0):
+    """alphabets for the breadth-first exploration of the real on-disk state graph (C08); they mirror the
+    model-checking configurations MCStore_q / MCStore_w16k so that state counts can be compared"""
+    s = Script(idbase, design=True, name="bfs_" + kind)
+    if kind == "q":
+        n = 1
+        keys = [s.key_in_bucket(10, 1, 0), s.key_in_bucket(11, 1, 0)]
+        vals = [s.newval(3), s.newval(20)]
+        prefix = []
+        ops_keys = keys
+    elif kind == "t":
+        n = 1
+        keys = [s.key_in_bucket(10, 1, 0), s.key_in_bucket(11, 1, 0)]
+        vals = [s.newval(3), s.newval(20), s.newval(1100)]
+        prefix = []
+        ops_keys = keys
+    else:   # w16k / w2m: four colliding 10-byte keys in bucket 0, ballast in bucket 1
+        width = 16300 if kind.startswith("w16k") else 2097000
+        n = 2
+        keys = [s.key_in_bucket(10, 2, 0) for _ in range(4)]
+        bk = s.key_in_bucket(width, 2, 1)
+        vals = [s.newval(3), s.newval(20)]
+        bv = s.newval(width)
+        prefix = [{"op": "put", "h": 1, "k": k, "v": vals[0]} for k in keys] + [{"op": "put", "h": 1, "k": bk, "v": bv}]
+        ops_keys = keys[:2] if kind.endswith("_q") else keys[:3]
+    alphabet = [{"op": "put", "k": k, "v": v} for k in ops_keys for v in vals] + [{"op": "del", "k": k} for k in ops_keys]
+    s.flush_tables()
+    tables = {"op": "tables", "keys": [], "vals": []}
+    for o in s.ops:
+        if o["op"] == "tables":
+            tables["keys"] += o["keys"]
+            tables["vals"] += o["vals"]
+    return {"kt": "bytes", "n": n, "params": {"buckets": ["BucketsSize", n]}, "tables": tables, "prefix": prefix, "alphabet": alphabet, "kind": kind}
